@@ -94,7 +94,7 @@ static void clientA(World* w) {
       dueRel = s.due[i - 1];
       w->op[i] = make_op(schedule_at(sched, sclock::time_point(std::chrono::nanoseconds(BASE + s.due[i - 1]))), Rcv{w, i});
     }
-    vrt::ev("{\"e\":\"ArmBegin\",\"op\":%d,\"due\":%lld,\"now\":%lld,\"t\":1}", i, dueRel, rel_now());
+    vrt::ev("{\"e\":\"ArmBegin\",\"sync\":1,\"op\":%d,\"due\":%lld,\"now\":%lld,\"t\":1}", i, dueRel, rel_now());
     OpBase* p = w->op[i];
     p->start();                     // may complete (and free the op) before returning
     vrt::ev("{\"e\":\"ArmEnd\",\"op\":%d,\"now\":%lld,\"t\":1}", i, rel_now());
@@ -105,7 +105,7 @@ static void stopperB(World* w) {
   sleep_until_v(BASE + s.stopAt);
   vrt::ev("{\"e\":\"StopBegin\",\"op\":%d,\"t\":2}", s.stop);
   w->src[s.stop]->request_stop();
-  vrt::ev("{\"e\":\"StopEnd\",\"op\":%d,\"t\":2}", s.stop);
+  vrt::ev("{\"e\":\"StopEnd\",\"op\":%d,\"t\":2,\"now\":%lld}", s.stop, rel_now());
 }
 
 struct Step { int t; std::string site; };
@@ -161,7 +161,7 @@ int main(int argc, char** argv) {
   auto runOne = [&](const Scenario& sc, long x, long k, const std::function<void(vrt::Ctl&, World&, Result&, int&)>& drv, const json* expect) {
     tseam::vnow_ns.store(BASE);
     tseam::waits.clear();
-    vrt::ev("{\"e\":\"Reset\",\"x\":%ld,\"k\":%ld,\"scn\":%d,\"now\":0}", x, k, sc.id);
+    vrt::ev("{\"e\":\"Reset\",\"x\":%ld,\"k\":%ld,\"scn\":%d,\"now\":0,\"rt\":0,\"slack\":0}", x, k, sc.id);
     auto w = std::make_unique<World>(); w->scn = &sc;
     for (int i = 1; i <= w->n(); ++i) w->src[i] = std::make_unique<inplace_stop_source>();
     Result r; int ticks = 0;
